@@ -326,6 +326,8 @@ def main(prop_id, tier, replay=None, only=None):
     os.makedirs(os.path.join(VERIF, "evidence"), exist_ok=True)
     # partial runs (--only) never overwrite the evidence of a complete run
     ev_name = prop_id + (".partial.json" if only else ".json")
+    if os.environ.get("VERIF_REPO", "/repo") != "/repo":
+        ev_name = prop_id + ".scratch.json"        # a run against a scratch tree (seeded change) is not evidence about /repo
     with open(os.path.join(VERIF, "evidence", ev_name), "w") as f:
         f.write(json.dumps(ev, indent=1, default=_np_default))
 
